@@ -31,6 +31,7 @@ type Script struct {
 	FinalDown  int    `json:"final_down"`
 	Realtime   bool   `json:"realtime,omitempty"`   // no synctest bubble: wall-clock tickers and time-outs
 	DropFirst  int    `json:"drop_first,omitempty"` // the server silently ignores this many requests (real time only)
+	Phased     bool   `json:"phased,omitempty"`     // incarnation 0 carries a per-phase outage script; judged un-killed only
 }
 
 func (s *Script) String() string {
@@ -40,7 +41,11 @@ func (s *Script) String() string {
 		for _, x := range in.Steps {
 			st = append(st, x.String())
 		}
-		parts = append(parts, fmt.Sprintf("[%s | down=%v | %s]", strings.Join(st, " "), in.Down, in.End))
+		down := fmt.Sprint(in.Down)
+		if in.Phases != nil {
+			down = "phases " + in.Phases.String()
+		}
+		parts = append(parts, fmt.Sprintf("[%s | down=%s | %s]", strings.Join(st, " "), down, in.End))
 	}
 	return strings.Join(parts, " -> ")
 }
